@@ -88,7 +88,8 @@ func genCase(t *rapid.T) Case {
 	c := Case{Total: rapid.IntRange(2, 4).Draw(t, "total")}
 	c.Old = subset(t, "old", c.Total)
 	c.New = subset(t, "new", c.Total)
-	users := []string{"user1", "user10", "user2", "u", "alice", "user1x", "bob"}
+	// (ids that are names the shard manager itself uses on disk are users like any other)
+	users := []string{"user1", "user10", "user2", "u", "alice", "user1x", "bob", "sharddb.bbolt", "userCollections", "sharddb.bbolt.backup"}
 	nc := rapid.IntRange(1, 5).Draw(t, "ncols")
 	seen := map[string]bool{}
 	for i := 0; i < nc; i++ {
